@@ -46,17 +46,20 @@ EXTENDS Integers, Sequences, FiniteSets, TLC, Json, SequencesExt
 CONSTANTS MaxN,       \* max series per frame
           KeyVals,    \* abstract frame keys, subset of 1..3
           LenVals,    \* sample counts
-          TRIds,      \* time range ids: 0 = zero, 1 = A, 2 = B (B encloses A)
+          TRIds,      \* time range ids: 0 = zero [0,0), 1 = A, 2 = B (B encloses A),
+                      \* 3 = instant non-zero range [t,t), 4 = range with Start = 0 < End
           AlignVals,  \* alignments: 0 and a, a+1, a+2 with a = 5
           SmallFrom,  \* frames of >= SmallFrom series draw from the restricted value sets:
           N4TRIds, N4LenVals, N4AlignVals,
           CfgIds,     \* codec configurations to compute expectations for
-          Perms       \* raw orders emitted per frame: subset of {"id", "rev", "rot"}
+          Perms       \* raw orders emitted per frame: subset of {"id", "rev", "rot", "rep"};
+                      \* "rep" = the frame repeated to 14..16 series (see Permute)
 
 VARIABLE fr
 vars == <<fr>>
 
 TR(t) == CASE t = 0 -> <<0, 0>> [] t = 1 -> <<2, 3>> [] t = 2 -> <<1, 4>>
+           [] t = 3 -> <<2, 2>> [] t = 4 -> <<0, 3>>
 
 \* codec configurations: sorted state keys, variable-typed keys, alignment compression
 Cfg(c) == CASE c = "k3f" -> [keys |-> <<1, 2, 3>>, var |-> {}, merge |-> TRUE]
@@ -70,13 +73,15 @@ Cfg(c) == CASE c = "k3f" -> [keys |-> <<1, 2, 3>>, var |-> {}, merge |-> TRUE]
 -----------------------------------------------------------------------------
 (* enumeration of frames: multisets of series in a canonical (rank) order; the emitted raw
    orders are the canonical one, its reverse and a rotation, so for <= 2 series every
-   sequence is produced and for 3..4 series both orders of every tie are.                   *)
+   sequence is produced and for 3..4 series both orders of every tie are; "rep" turns
+   each of them into a frame of 14..16 series with repeated keys, equal alignments within
+   a key and alternating (unsorted) keys.                                                   *)
 Series == [k : KeyVals, l : LenVals, t : TRIds, a : AlignVals]
 Small == [k : KeyVals, l : N4LenVals, t : N4TRIds, a : N4AlignVals]
 Allowed(n) == IF n >= SmallFrom THEN Small ELSE Series
 \* rank: length, time range, then alignment and key DEscending, so that the canonical
 \* order is mostly unsorted with respect to (key, alignment)
-Rank(s) == ((s.l * 3 + s.t) * 8 + (7 - s.a)) * 4 + (3 - s.k)
+Rank(s) == ((s.l * 5 + s.t) * 8 + (7 - s.a)) * 4 + (3 - s.k)
 
 Init == fr = <<>>
 Next == /\ Len(fr) < MaxN
@@ -86,11 +91,17 @@ Next == /\ Len(fr) < MaxN
              /\ fr' = Append(fr, s)
 Spec == Init /\ [][Next]_vars
 
+RepBy(n) == CASE n = 0 -> 1 [] n = 1 -> 14 [] n = 2 -> 8 [] n = 3 -> 5 [] OTHER -> 4
 Permute(p, f) ==
   LET n == Len(f) IN
   CASE p = "id" -> f
     [] p = "rev" -> [i \in 1..n |-> f[n + 1 - i]]
     [] p = "rot" -> [i \in 1..n |-> f[(i % n) + 1]]
+    \* many series: the frame laid end to end RepBy(n) times. Every series then has copies
+    \* with the same key and alignment (ties that only the raw index orders; merged when
+    \* their length is 0, kept apart otherwise), keys alternate instead of being sorted, and
+    \* the series count (14..16) is beyond what a small-input insertion sort handles
+    [] p = "rep" -> [i \in 1..(n * RepBy(n)) |-> f[((i - 1) % n) + 1]]
 
 -----------------------------------------------------------------------------
 (* encoder *)
